@@ -34,6 +34,12 @@ import (
 // how many messages sit in the channel once the reader has nothing more to do
 // (barrier message behind everything when no handler is blocked); `c05 chread`
 // (take one message from the channel if there is one), `c05 chdrain` (take all).
+// `c05 chagg <m>`: a message of the aggregated channel type (M2, from the
+// parent: dispatched at once as a slice of one) — the send into that channel
+// has no capacity test: when the channel of slices is full the reader waits
+// for room, like inside a slow handler (further messages for the instance are
+// taken and queue up, other instances are not concerned); `c05 chaggread`: the
+// protocol reads one slice.
 // `c05 chhold <m>` (idle, open instance): a channel message is handed over and
 // the reader is held between the pop and dispatchChannel's tests (the harness
 // holds the lock of the tree store, Overlay.VerifC05HoldTrees: the reader waits
@@ -58,11 +64,16 @@ type c05chanRun struct {
 	known        map[int]bool // channel messages handed over so far
 	late         map[int]bool // popped before the close, dispatched after it: must not be sent
 	closed       bool
+	// the aggregated channel
+	expect2   []int // its content, oldest first
+	sendWait  bool  // the reader waits for room in it
+	sendWaitM int
 }
 
 type c05chanMsg struct {
-	ch bool
-	m  int
+	ch  bool
+	m   int
+	agg bool
 }
 
 func c05chan(c *h.Ctx, cs *h.Case) {
@@ -141,8 +152,24 @@ func c05chan(c *h.Ctx, cs *h.Case) {
 		r.mu.Lock()
 		rec, closed := r.rec, r.closed
 		r.mu.Unlock()
+		if rec != nil {
+			// a reader that waits for room in the channel of slices is let go
+			for j := 0; j < 40; j++ {
+				select {
+				case <-rec.Ch2:
+					continue
+				default:
+				}
+				time.Sleep(500 * time.Microsecond)
+			}
+		}
 		if rec != nil && !closed {
-			rec.Tni.Done()
+			done := make(chan struct{})
+			go func() { rec.Tni.Done(); close(done) }()
+			select {
+			case <-done:
+			case <-time.After(5 * time.Second):
+			}
 		}
 	}()
 	waitFor := func(d time.Duration, pred func() bool) bool {
@@ -192,7 +219,7 @@ func c05chan(c *h.Ctx, cs *h.Case) {
 	// acceptance order on one goroutine, so once it ran everything before it has been dispatched
 	barrier := func() bool {
 		r.mu.Lock()
-		rec, closed, busy := r.rec, r.closed, r.entered > r.exited
+		rec, closed, busy := r.rec, r.closed, r.entered > r.exited || r.sendWait
 		r.mu.Unlock()
 		if rec == nil || closed || busy {
 			return true
@@ -227,6 +254,8 @@ func c05chan(c *h.Ctx, cs *h.Case) {
 		pc := "idle"
 		if r.entered > r.exited {
 			pc = fmt.Sprintf("in:%d", r.running)
+		} else if r.sendWait {
+			pc = fmt.Sprintf("in:%d", r.sendWaitM)
 		}
 		r.mu.Unlock()
 		if held {
@@ -246,14 +275,53 @@ func c05chan(c *h.Ctx, cs *h.Case) {
 		}
 	}
 	// the reader goes through what was queued behind a handler, up to the next handler message
-	advance := func() {
+	advance := func() string {
 		for len(r.queuedBehind) > 0 {
 			x := r.queuedBehind[0]
 			r.queuedBehind = r.queuedBehind[1:]
+			if x.agg {
+				if len(r.expect2) < capacity {
+					r.expect2 = append(r.expect2, x.m)
+					continue
+				}
+				r.mu.Lock()
+				r.sendWait, r.sendWaitM = true, x.m
+				r.mu.Unlock()
+				return "sendwait"
+			}
 			if !x.ch {
-				return // its handler runs now
+				return "handler" // its handler runs now
 			}
 			dispatchChan(x.m)
+		}
+		return ""
+	}
+	// the reader is inside the send into the full channel of slices once it has taken everything up to that
+	// message from the queue (the accessor needs the queue lock: if that is not free, go on — the next
+	// hand-over shows it)
+	lockStuck := false
+	waitQueued := func(n int) {
+		if lockStuck {
+			return
+		}
+		r.mu.Lock()
+		rec := r.rec
+		r.mu.Unlock()
+		if rec == nil {
+			return
+		}
+		for dl := time.Now().Add(4 * time.Second); time.Now().Before(dl); time.Sleep(300 * time.Microsecond) {
+			got := make(chan int, 1)
+			go func() { q, _ := rec.Tni.VerifC05QueueState(); got <- q }()
+			select {
+			case q := <-got:
+				if q <= n {
+					return
+				}
+			case <-time.After(2 * time.Second):
+				lockStuck = true
+				return
+			}
 		}
 	}
 	// what the protocol reads from its channel, checked against the documented behaviour
@@ -300,13 +368,103 @@ func c05chan(c *h.Ctx, cs *h.Case) {
 			cs.Impl = append(cs.Impl, "bad-op")
 			continue
 		}
-		if held && ((len(tk) == 3 && (tk[1] == "chsend" || tk[1] == "chacc" || tk[1] == "chwait" || tk[1] == "chhold")) || (len(tk) == 2 && tk[1] == "chexit")) {
+		if held && ((len(tk) == 3 && (tk[1] == "chsend" || tk[1] == "chacc" || tk[1] == "chwait" || tk[1] == "chhold" || tk[1] == "chagg")) || (len(tk) == 2 && tk[1] == "chexit")) {
 			cs.Impl = append(cs.Impl, "held")
 			continue
 		}
 		switch {
 		case tk[1] == "chstart" && len(tk) == 3:
 			cs.Impl = append(cs.Impl, "ok")
+		case tk[1] == "chagg" && len(tk) == 3:
+			m, err := strconv.Atoi(tk[2])
+			if err != nil || m < 0 || strings.HasPrefix(tk[2], "+") {
+				cs.Impl = append(cs.Impl, "bad-op")
+				continue
+			}
+			r.mu.Lock()
+			busy := r.entered > r.exited || r.sendWait
+			r.mu.Unlock()
+			c.Count("op=chagg")
+			if !inject(&fix.M2{V: m}) {
+				cs.Impl = append(cs.Impl, "hang")
+				cs.Fail("handover-blocked", fmt.Sprintf("handing message %d over did not return within 10 s (%s)", m, state()))
+				continue
+			}
+			switch {
+			case r.closed:
+			case busy:
+				r.queuedBehind = append(r.queuedBehind, c05chanMsg{m: m, agg: true})
+			case len(r.expect2) < capacity:
+				r.expect2 = append(r.expect2, m)
+			default:
+				r.mu.Lock()
+				r.sendWait, r.sendWaitM = true, m
+				r.mu.Unlock()
+				c.Count("chan: the reader waits for room in the channel of slices")
+				waitQueued(0)
+			}
+			if !barrier() {
+				stuck(fmt.Sprintf("a barrier message behind message %d is never handled although no handler is running and the channel of slices has room", m))
+				continue
+			}
+			checkLen(op)
+			cs.Impl = append(cs.Impl, state())
+		case tk[1] == "chaggread" && len(tk) == 2:
+			r.mu.Lock()
+			rec := r.rec
+			r.mu.Unlock()
+			got := "empty"
+			if rec != nil {
+				select {
+				case vs := <-rec.Ch2:
+					v := -1
+					if len(vs) == 1 {
+						v = vs[0].V
+					}
+					got = fmt.Sprintf("got:%d", v)
+					if len(r.expect2) == 0 || r.expect2[0] != v {
+						cs.Fail("chan-not-acceptance-order", fmt.Sprintf("the protocol reads %d from its channel of slices; in acceptance order the channel holds %v", v, r.expect2))
+					}
+					if len(r.expect2) > 0 {
+						r.expect2 = r.expect2[1:]
+					}
+					r.mu.Lock()
+					waiting := r.sendWait
+					r.mu.Unlock()
+					if waiting {
+						// room: the waiting send goes through, the reader goes on with what queued up behind it
+						r.expect2 = append(r.expect2, r.sendWaitM)
+						r.mu.Lock()
+						r.sendWait = false
+						wantEnter := r.entered
+						r.mu.Unlock()
+						stop := ""
+						before := len(r.rejected)
+						if r.closed {
+							r.queuedBehind = nil
+						} else {
+							stop = advance()
+						}
+						nReject += len(r.rejected) - before
+						if stop == "handler" {
+							if !waitFor(4*time.Second, func() bool { return r.entered >= wantEnter+1 }) {
+								stuck("after the channel of slices got room the next queued handler message is never handled")
+								continue
+							}
+						} else if stop == "sendwait" {
+							waitQueued(len(r.queuedBehind))
+						} else if !barrier() {
+							stuck("after the channel of slices got room a barrier message behind everything is never handled")
+							continue
+						}
+					}
+				default:
+					if len(r.expect2) > 0 {
+						cs.Fail("chan-message-lost", fmt.Sprintf("the channel of slices is empty; messages %v found room and must be in it", r.expect2))
+					}
+				}
+			}
+			cs.Impl = append(cs.Impl, got)
 		case tk[1] == "chhold" && len(tk) == 3:
 			m, err := strconv.Atoi(tk[2])
 			if err != nil || m < 0 || strings.HasPrefix(tk[2], "+") {
@@ -314,7 +472,7 @@ func c05chan(c *h.Ctx, cs *h.Case) {
 				continue
 			}
 			r.mu.Lock()
-			busy, closed, rec := r.entered > r.exited, r.closed, r.rec
+			busy, closed, rec := r.entered > r.exited || r.sendWait, r.closed, r.rec
 			r.mu.Unlock()
 			if closed || busy {
 				cs.Impl = append(cs.Impl, "not-idle")
@@ -411,7 +569,7 @@ func c05chan(c *h.Ctx, cs *h.Case) {
 			}
 			isCh := tk[1] == "chsend"
 			r.mu.Lock()
-			busy := r.entered > r.exited
+			busy := r.entered > r.exited || r.sendWait
 			wantEnter := r.entered + 1
 			if !r.closed {
 				if isCh {
@@ -433,7 +591,7 @@ func c05chan(c *h.Ctx, cs *h.Case) {
 			switch {
 			case r.closed:
 			case busy:
-				r.queuedBehind = append(r.queuedBehind, c05chanMsg{isCh, m})
+				r.queuedBehind = append(r.queuedBehind, c05chanMsg{ch: isCh, m: m})
 			case isCh:
 				before := len(r.rejected)
 				dispatchChan(m)
@@ -466,26 +624,23 @@ func c05chan(c *h.Ctx, cs *h.Case) {
 				continue
 			}
 			before := len(r.rejected)
-			nextHandler := false
+			stop := ""
 			if !r.closed {
-				for _, x := range r.queuedBehind {
-					if !x.ch {
-						nextHandler = true
-						break
-					}
-				}
-				advance()
+				stop = advance()
 			} else {
 				r.queuedBehind = nil
 			}
 			nReject += len(r.rejected) - before
-			if nextHandler {
+			if stop == "handler" {
 				wantEnter++
 			}
 			r.gate <- struct{}{}
 			if !waitFor(4*time.Second, func() bool { return r.exited >= wantExit && r.entered >= wantEnter }) {
 				stuck("after the handler returned the next queued handler message is never handled")
 				continue
+			}
+			if stop == "sendwait" {
+				waitQueued(len(r.queuedBehind))
 			}
 			if !barrier() {
 				stuck("a barrier message behind everything is never handled although no handler is running")
@@ -650,8 +805,39 @@ func c05chanGen(c *h.Ctx, yield func(*h.Case)) {
 	// … held as the very first message of the run, the channel stays full: rejected at the tests
 	yield(&h.Case{Class: "chan-corpus", Ops: []string{"c05 chstart 2", "c05 chhold 1", "c05 chrel", "c05 chsend 2", "c05 chhold 3",
 		"c05 chrel", "c05 chwait 280", "c05 chdrain", "c05 chrel"}})
+	// the channel of slices (aggregated type) is full: the reader waits for room inside the send; messages for the
+	// instance are still taken (3 and 104 queue up behind it), a read of the channel lets everything go on
+	yield(&h.Case{Class: "chan-corpus", Ops: []string{"c05 chstart 1", "c05 chagg 501", "c05 chagg 502", "c05 chsend 3", "c05 chacc 104",
+		"c05 chexit", "c05 chaggread", "c05 chexit", "c05 chaggread", "c05 chread", "c05 chaggread", "c05 chdrain"}})
+	yield(&h.Case{Class: "chan-corpus", Ops: []string{"c05 chstart 2", "c05 chagg 501", "c05 chagg 502", "c05 chagg 503", "c05 chagg 504",
+		"c05 chaggread", "c05 chaggread", "c05 chaggread", "c05 chaggread", "c05 chaggread", "c05 chdrain"}})
+	for n := 0; n < c.Pick(10, 250); n++ {
+		capacity := 1 + r.Intn(3)
+		ops := []string{fmt.Sprintf("c05 chstart %d", capacity)}
+		m := 0
+		for j := 0; j < 6+r.Intn(18); j++ {
+			m++
+			switch x := r.Intn(20); {
+			case x < 9:
+				ops = append(ops, fmt.Sprintf("c05 chagg %d", 500+m))
+			case x < 15:
+				ops = append(ops, "c05 chaggread")
+			case x < 17:
+				ops = append(ops, fmt.Sprintf("c05 chsend %d", m))
+			case x < 18:
+				ops = append(ops, "c05 chread")
+			case x < 19:
+				ops = append(ops, fmt.Sprintf("c05 chacc %d", 100+m))
+			default:
+				ops = append(ops, "c05 chexit")
+			}
+		}
+		ops = append(ops, "c05 chexit", "c05 chaggread", "c05 chexit", "c05 chaggread", "c05 chaggread", "c05 chaggread", "c05 chdrain")
+		c.Count("class=chan-agg")
+		yield(&h.Case{Class: "chan-agg", Ops: ops})
+	}
 	waits := 0
-	for n := 0; n < c.Pick(36, 600); n++ {
+	for n := 0; n < c.Pick(28, 600); n++ {
 		capacity := 1 + r.Intn(4)
 		if r.Intn(8) == 0 {
 			capacity = 5 + r.Intn(40)
